@@ -629,11 +629,38 @@ def _clone_src(e, ctx: FuncInfo):
     return new
 
 
+def _unqualified(repo: Repo, fi: FuncInfo) -> FuncInfo:
+    """`utils.helper(x)` through an imported repo *module* -> `helper(x)` on a copy of the function, each new name remembering the
+    module it lives in (core/types.py treats a repo module object as a library reference, so the inliner would not look into
+    helpers called that way)."""
+    if isinstance(fi.node, ast.Lambda):
+        return fi
+    node = _clone(fi.node)
+    hit = False
+    for c in ast.walk(node):
+        if isinstance(c, ast.Call) and isinstance(c.func, ast.Attribute) and isinstance(c.func.value, (ast.Name, ast.Attribute)):
+            base = repo.resolve_name(fi.module, c.func.value)
+            om = repo.modules.get(base) if base else None
+            f = om.functions.get(c.func.attr) if om is not None else None
+            if f is not None and f.cls is None:
+                name = ast.copy_location(ast.Name(id=c.func.attr, ctx=ast.Load()), c.func)
+                name._src = (f, ast.Name(id=c.func.attr, ctx=ast.Load()))  # type: ignore[attr-defined]
+                c.func = name
+                hit = True
+    if not hit:
+        return fi
+    ast.fix_missing_locations(node)
+    set_parents(node)
+    pre = FuncInfo(name=fi.name, qualname=fi.qualname + "~unq", node=node, module=fi.module, cls=fi.cls, decorators=list(fi.decorators), outer=fi.outer)
+    node._func = pre  # type: ignore[attr-defined]
+    return pre
+
+
 def search_view(repo: Repo, fi: FuncInfo) -> FuncInfo:
     cache = repo.__dict__.setdefault("_search_views", {})
     if fi.fq in cache:
         return cache[fi.fq]
-    v0 = Inliner(repo, types_of(repo), _allow).view(fi)
+    v0 = Inliner(repo, types_of(repo), _allow).view(_unqualified(repo, fi))
     inlined = list(getattr(v0, "inlined", []))
     for _ in range(3):
         # helper calls the inliner could not reach (nested in an expression, generator helpers in a for header): make them
